@@ -245,6 +245,31 @@ def consensus_stage(o, seed, thorough):
     vlib.conformance(o, FAMILY, "QBFTTrace", trace_cfg_of, "c02", rnd, tag="qbft_random", replay_of=trace_to_schedule)
 
 
+def quorum_proof(o):
+    """QuorumProof.tla: the same lemmas for EVERY n >= 1 and the set-level intersection property, proved with TLAPS (SMT +
+    FiniteSetTheorems).  A proof that does not go through (back-end timeout under load) is reported in the evidence and
+    never as a violation - the statement proved is independent of /repo."""
+    import shutil, subprocess, time
+    if not shutil.which("tlapm"):
+        o.extra["quorum_proof"] = "tlapm not available"
+        return
+    d = vlib.scratch(o.pid, "Proofs")
+    t0 = time.time()
+    for stretch in ("1", "4"):
+        p = subprocess.run(["timeout", "600", "tlapm", "--cleanfp", "--threads", "8", "--stretch", stretch, "QuorumProof.tla"],
+                           cwd=d, stdout=subprocess.PIPE, stderr=subprocess.STDOUT, text=True)
+        m = __import__("re").search(r"All (\d+) obligations proved", p.stdout)
+        if m:
+            o.extra["quorum_proof"] = {"obligations_proved": int(m.group(1)), "seconds": round(time.time() - t0, 1),
+                                       "theorems": ["Arith (all n >= 1)", "QuorumIntersection", "HonestInFPlus1"]}
+            o.selftests.append({"control": "QuorumProof.tla: %s TLAPS obligations proved (quorum intersection for every n)" % m.group(1),
+                                "rejected_as_required": True})
+            vlib.log("[%s] QuorumProof: all %s obligations proved by TLAPS in %.0fs" % (o.pid, m.group(1), time.time() - t0))
+            return
+    o.extra["quorum_proof"] = "not proved in this run: " + p.stdout[-300:]
+    vlib.log("[%s] QuorumProof: TLAPS did not finish (%s)" % (o.pid, p.stdout[-200:].replace("\n", " ")))
+
+
 def quorum_arith(o):
     """QuorumArith.tla: the intersection lemmas for n = 1..200 as TLC-checked theorems, and the Go float formulas of
     Definition.Quorum/Faulty bound to the integer ones through the recorded values."""
